@@ -162,7 +162,7 @@ fn dereplicate_indels<IntT: for<'a> UInt<'a>>(
 
     sorted_extremities.sort_by(|a, b| {
         a.1.cmp(&b.1) // sort by sum of sequence lengths
-            .then_with(|| a.0 .0.cmp(&b.0 .0)) // sort by the first IntT value of the key when there's a tie
+            .then_with(|| a.0.cmp(&b.0)) // sort by the IntT values of the key when there's a tie
     });
 
     for (combined_ext, _) in sorted_extremities {
